@@ -131,15 +131,18 @@ func planBLS(combo, r int) []planItem {
 		switch {
 		case np.Name == full:
 			for qi, q := range quorumCases(np, -1, 0, 2, rot) {
-				out = append(out, planItem{np, q, src, pi, qi})
+				out = append(out, planItem{np: np, q: q, srcIdx: src, pi: pi, qi: qi, rich: true})
 			}
 		case isReplicated(np):
-			for qi, q := range quorumCases(np, 1, 1, 1, rot) {
-				out = append(out, planItem{np, q, 1 - src, pi, qi})
+			for qi, q := range quorumCases(np, 1, 0, 1, rot) {
+				out = append(out, planItem{np: np, q: q, srcIdx: 1 - src, pi: pi, qi: qi})
 			}
 		default:
+			if (pi+combo+int(seed))%2 == 1 { // every second of the other policies (all of them over the six combinations / two seeds)
+				continue
+			}
 			for qi, q := range quorumCases(np, 1, 0, 1, rot) {
-				out = append(out, planItem{np, q, pi + combo + int(seed), pi, qi})
+				out = append(out, planItem{np: np, q: q, srcIdx: pi + combo + int(seed), pi: pi, qi: qi})
 			}
 		}
 	}
@@ -163,7 +166,7 @@ func signBLSOn[
 			if !takeCase(name) {
 				continue
 			}
-			blsLine(d, mode.name, mode.alg, it.np, keyFor(d.g, it.np, it.srcIdx), it.q, msgClass)
+			blsLine(d, mode.name, mode.alg, it.np, keyFor(d.g, it.np, it.srcIdx), it.q, msgClass, it.rich || thor)
 		}
 	}
 }
@@ -172,7 +175,7 @@ func blsLine[
 	PK curves.PairingFriendlyPoint[PK, PKFE, SG, SGFE, E, S], PKFE algebra.FieldElement[PKFE],
 	SG curves.PairingFriendlyPoint[SG, SGFE, PK, PKFE, E, S], SGFE algebra.FieldElement[SGFE],
 	E algebra.MultiplicativeGroupElement[E], S algebra.PrimeFieldElement[S],
-](d *blsDesc[PK, PKFE, SG, SGFE, E, S], mode string, alg bls.RogueKeyPreventionAlgorithm, np namedPolicy, km *keyMat[PK, S], q quorumCase, msgClass string) {
+](d *blsDesc[PK, PKFE, SG, SGFE, E, S], mode string, alg bls.RogueKeyPreventionAlgorithm, np namedPolicy, km *keyMat[PK, S], q quorumCase, msgClass string, rich bool) {
 	ev := newSignEv("bls", d.name+"-"+mode, d.g.name, np, km.src, q, "rounds", msgClass)
 	defer func() { w.Emit(ev) }()
 	if km.err != "" {
@@ -245,6 +248,9 @@ func blsLine[
 	if !thor && len(aggIDs) > 2 {
 		aggIDs = []ID{q.ids[0], q.ids[len(q.ids)-1]}
 	}
+	if !rich {
+		aggIDs = aggIDs[:1]
+	}
 	ev["nAgg"] = len(aggIDs)
 	for _, id := range aggIDs {
 		who := fmt.Sprintf("agg:%d", id)
@@ -286,7 +292,7 @@ func blsLine[
 				continue
 			}
 			if as.IsQualified(s...) {
-				if !thor && qualifiedTried >= 1 { // quick tier: one qualified sub-collection per run
+				if !rich || (!thor && qualifiedTried >= 1) { // quick tier: one qualified sub-collection per rich run
 					continue
 				}
 				qualifiedTried++
